@@ -799,6 +799,60 @@ def _adaptor(ip, st, t, a, rt):
     return NotImplemented
 
 
+# --- searches over a fixed-size array: unrolled (the element count is known from the type or the literal) --------------
+def _fixed_elems(itv):
+    """Elements of `arr.iter()` when arr has a statically known length (array literal or `[T; N]` value), else None."""
+    itv = deref(itv)
+    at = itv.atom if isinstance(itv, I.Sym) else None
+    if at is None or at.kind != 'app' or at.name != 'call:core::slice::<impl [T]>::iter' or len(at.args) != 1:
+        return None
+    arr = at.args[0]
+    n = None
+    if isinstance(arr, I.St) and arr.adt == 'array':
+        n = len(arr.fields)
+    else:
+        ty = (getattr(arr, 'ty', None) or '').strip()
+        for pre in ('&mut ', '&'):
+            if ty.startswith(pre):
+                ty = ty[len(pre):]
+        m = re.match(r'^\[(.+); (\d+)\]$', ty)
+        if m:
+            n = int(m.group(2))
+    if n is None or n > 8:
+        return None
+    return [I.get_index(arr, RF.const(i)) for i in range(n)]
+
+
+@regx(r"^<std::slice::Iter<'a, T> as std::iter::Iterator>::(position|any|all)$")
+def _fixed_search(ip, st, t, a, rt):
+    if len(a) < 2 or not isinstance(a[0], I.Ref):
+        return NotImplemented
+    elems = _fixed_elems(I.read_lv(a[0].lv))
+    if elems is None:
+        return NotImplemented
+    which = (t.get('callee') or '').rsplit('::', 1)[-1]
+    conds = []
+    for e in elems:
+        c = call_fn_value(ip, a[1], [ip.ref_to(e)], 'bool')
+        if not isinstance(c, I.B):
+            return NotImplemented
+        conds.append(c)
+    if which == 'any':
+        out = I.FALSE
+        for c in conds:
+            out = I.b_or(out, c)
+        return out
+    if which == 'all':
+        out = I.TRUE
+        for c in conds:
+            out = I.b_and(out, c)
+        return out
+    out = I.NONE
+    for i in reversed(range(len(conds))):
+        out = I.ite(conds[i], I.some(RF.const(i)), out)
+    return out
+
+
 # --- integer ranges with constant bounds (used by loop unrolling) ------------------------------------------
 def _range_st(v):
     v = deref(v)
